@@ -2,6 +2,7 @@ package versionedit
 
 import (
 	"fmt"
+	"runtime"
 	"strings"
 	"testing"
 
@@ -12,27 +13,41 @@ import (
 )
 
 const (
-	// An allocation of at most this size for a field that is not backed by
-	// input is harmless; Decode is called normally.
-	allocHarmless = 64 << 10
-	// A declared length of at least this size is beyond the Go runtime's
-	// maximum allocation on every platform: make panics immediately without
-	// touching memory.
-	allocImpossible = 1 << 56
+	// Unbacked length prefixes above this size get the allocation check.
+	allocChecked = 32 << 20
+	// What Decode may allocate at most while rejecting such an input.
+	allocBudget = 16 << 20
 )
 
-// guardedDecode screens the input before handing it to Decode. Inputs that
-// would make Decode allocate between 64 KiB and 2^56 bytes for a field that is
-// not present in the input are never executed (shared machine); ok=false then.
-func guardedDecode(b []byte) (ve *manifest.VersionEdit, err error, alloc uint64, ok bool) {
-	if a, hit := screen(b); hit && a > allocHarmless {
-		if a < allocImpossible {
-			return nil, nil, a, false
-		}
-		alloc = a
+// guardedDecode decodes b. Before that the input is walked the way Decode
+// reads it (screen): if a length-prefixed field (or the blob-reference count)
+// declares more than the input holds, Decode must return an error, and for
+// large declared lengths it must do so without allocating anything near the
+// declared size (the length prefix is untrusted input). The allocation is
+// measured with runtime.MemStats.TotalAlloc around the call; the budget is
+// three orders of magnitude above what a streaming decoder needs for inputs of
+// a few KiB, so background allocations of the runtime cannot matter.
+func guardedDecode(b []byte) (ve *manifest.VersionEdit, decErr error, violation error, unbacked uint64) {
+	declared, hit := screen(b)
+	if !hit {
+		ve, decErr = decodeEdit(b)
+		return ve, decErr, nil, 0
 	}
-	ve, err = decodeEdit(b)
-	return ve, err, alloc, true
+	var before, after runtime.MemStats
+	if declared > allocChecked {
+		runtime.ReadMemStats(&before)
+	}
+	ve, decErr = decodeEdit(b)
+	if declared > allocChecked {
+		runtime.ReadMemStats(&after)
+		if d := after.TotalAlloc - before.TotalAlloc; d > allocBudget {
+			return ve, decErr, fmt.Errorf("Decode allocated %d bytes for a %d-byte input whose length prefix declares %d bytes: %x", d, len(b), declared, b), declared
+		}
+	}
+	if decErr == nil {
+		return ve, nil, fmt.Errorf("Decode accepted an input in which a length-prefixed field declares %d bytes beyond the input: %x", declared, b), declared
+	}
+	return nil, decErr, nil, declared
 }
 
 func firstDiff(a, b string) string {
@@ -55,9 +70,9 @@ func firstDiff(a, b string) string {
 // checkRoundTrip checks Decode(Encode(e)) against the plan, the DebugString
 // and the re-encoding.
 func checkRoundTrip(i int, es *EditSpec, ve *manifest.VersionEdit, enc []byte, reg map[uint64]*manifest.TableBacking) error {
-	d1, err, alloc, ok := guardedDecode(enc)
-	if !ok {
-		return fmt.Errorf("edit %d: Encode produced a record in which a length-prefixed field declares %d bytes beyond the record (not decoded): %x", i, alloc, enc)
+	d1, err, viol, _ := guardedDecode(enc)
+	if viol != nil {
+		return fmt.Errorf("edit %d: Encode(e) = %x: %v", i, enc, viol)
 	}
 	if err != nil {
 		return fmt.Errorf("edit %d: Decode(Encode(e)) failed: %v\n  encoding %x\n  edit:\n%s", i, err, enc, canonSpec(es))
@@ -78,9 +93,9 @@ func checkRoundTrip(i int, es *EditSpec, ve *manifest.VersionEdit, enc []byte, r
 	if err := sameEncoding(enc, enc2, det); err != nil {
 		return fmt.Errorf("edit %d: %v", i, err)
 	}
-	d2, err, alloc, ok := guardedDecode(enc2)
-	if !ok {
-		return fmt.Errorf("edit %d: re-encoding declares a field of %d bytes beyond the record: %x", i, alloc, enc2)
+	d2, err, viol, _ := guardedDecode(enc2)
+	if viol != nil {
+		return fmt.Errorf("edit %d: re-encoding: %v", i, viol)
 	}
 	if err != nil {
 		return fmt.Errorf("edit %d: Decode of the re-encoding failed: %v", i, err)
@@ -138,6 +153,9 @@ func seqLabels(p *SeqPlan, out *evid.Outcome) {
 			}
 			if t.CreationTime == 0 {
 				add("has-zero-ctime")
+			}
+			if t.rangeKeysOnlyCustom() {
+				add("has-rangekey-table-without-other-custom-field")
 			}
 		}
 		if richNew && len(e.Deleted) > 0 {
@@ -281,27 +299,36 @@ func execSeq(p *SeqPlan, out *evid.Outcome) error {
 	return nil
 }
 
-// knownClass reports whether a decoded edit falls in the input class of a
-// candidate finding about re-encoding.
-func knownClass(ve *manifest.VersionEdit) string {
+// knownClass classifies a decoded edit: label names an input class that was
+// (or is) the subject of a finding about re-encoding; sig is the signature of
+// the finding that is still open, if any.
+//
+//   - range-keys-no-other-custom-field, lone-synthetic-prefix-suffix: repaired
+//     in 386163c74 (regression classes, always checked);
+//   - depth-without-references: blob-reference depth != 0 with zero references
+//     (violates the documented invariant "BlobReferenceDepth == 0 iff
+//     len(BlobReferences) == 0"): Decode accepts it, Encode drops the depth.
+func knownClass(ve *manifest.VersionEdit) (label, sig string) {
 	for _, nt := range ve.NewTables {
 		m := nt.Meta
 		if len(m.BlobReferences) == 0 && m.BlobReferenceDepth != 0 {
-			// violates the documented invariant depth == 0 iff no references
-			return sigDroppedFields
+			return "depth-without-references", sigDepthNoRefs
 		}
-		custom := m.CreationTime != 0 || m.Virtual || len(m.BlobReferences) > 0 || m.RangeKeyKinds == manifest.OnlyRangeKeyUnsetAndDelete
-		if custom {
+	}
+	for _, nt := range ve.NewTables {
+		m := nt.Meta
+		other := m.CreationTime != 0 || m.Virtual || len(m.BlobReferences) > 0 || m.RangeKeyKinds == manifest.OnlyRangeKeyUnsetAndDelete
+		if other {
 			continue
 		}
 		if m.HasRangeKeys {
-			return sigNoTerminator
+			return "range-keys-no-other-custom-field", ""
 		}
 		if m.SyntheticPrefixAndSuffix.HasPrefix() || m.SyntheticPrefixAndSuffix.HasSuffix() {
-			return sigDroppedFields
+			return "lone-synthetic-prefix-suffix", ""
 		}
 	}
-	return ""
+	return "", ""
 }
 
 // findingActive is evid.FindingActive except for demonstration plans, which
@@ -315,23 +342,19 @@ func execBytes(b []byte, origin string, demo bool, out *evid.Outcome) error {
 	if origin != "" {
 		out.Labels = append(out.Labels, "bytes:origin="+origin)
 	}
-	if a, hit := screen(b); hit && a > allocHarmless {
-		if a < allocImpossible {
-			// Decode would try to allocate a[MiB..] for a field that is not in
-			// the input. Same class as the finding below, but never executed.
-			out.Labels = append(out.Labels, "bytes:unbacked-length-midrange-not-executed")
-			if findingActive(demo, sigHugeLength) {
-				out.Excluded = sigHugeLength
-			}
-			return nil
-		}
+	e1, err, viol, unbacked := guardedDecode(b)
+	switch {
+	case unbacked == 0:
+	case unbacked <= 64<<10:
+		out.Labels = append(out.Labels, "bytes:unbacked-length<=64KiB")
+	case unbacked < 1<<56:
+		out.Labels = append(out.Labels, "bytes:unbacked-length-midrange")
+	default:
 		out.Labels = append(out.Labels, "bytes:unbacked-length-oversized")
-		if findingActive(demo, sigHugeLength) {
-			out.Excluded = sigHugeLength
-			return nil
-		}
 	}
-	e1, err := decodeEdit(b)
+	if viol != nil {
+		return viol
+	}
 	if err != nil {
 		out.Labels = append(out.Labels, "bytes:rejected")
 		return nil
@@ -348,10 +371,10 @@ func execBytes(b []byte, origin string, demo bool, out *evid.Outcome) error {
 			out.Labels = append(out.Labels, "bytes:accepted-virtual-or-blobref-and-deletion")
 		}
 	}
-	if c := knownClass(e1); c != "" {
-		out.Labels = append(out.Labels, "bytes:class="+c)
-		if findingActive(demo, c) {
-			out.Excluded = c
+	if label, sig := knownClass(e1); label != "" {
+		out.Labels = append(out.Labels, "bytes:class="+label)
+		if sig != "" && findingActive(demo, sig) {
+			out.Excluded = sig
 			return nil
 		}
 	}
@@ -361,9 +384,9 @@ func execBytes(b []byte, origin string, demo bool, out *evid.Outcome) error {
 	if err != nil {
 		return fmt.Errorf("Encode of the decoded edit failed: %v\n  input %x", err, b)
 	}
-	e2, err, alloc, ok := guardedDecode(b2)
-	if !ok {
-		return fmt.Errorf("the encoding of the decoded edit declares a field of %d bytes beyond the record (not decoded)\n  input    %x\n  encoding %x", alloc, b, b2)
+	e2, err, viol, _ := guardedDecode(b2)
+	if viol != nil {
+		return fmt.Errorf("encoding of the decoded edit: %v\n  input %x", viol, b)
 	}
 	if err != nil {
 		return fmt.Errorf("the encoding of the decoded edit does not decode: %v\n  input    %x\n  encoding %x\n  decoded:\n%s", err, b, b2, c1)
@@ -409,26 +432,17 @@ func exec(p Plan) (evid.Outcome, error) {
 	return out, fmt.Errorf("harness: unknown plan mode %q", p.Mode)
 }
 
-// Demonstrations of the candidate findings (consulted only when listed in
-// known_findings.jsonl).
+// Demonstration of the open finding (consulted only when listed in
+// known_findings.jsonl). The demonstrations of the two repaired findings are
+// regression replays now (/verif/replays/C23/fixed-*.json).
 func knownPlans() []evid.Known[Plan] {
 	rk := func(u string, seq uint64, kind uint8) *KeySpec {
 		return &KeySpec{User: []byte(u), Seq: seq, Kind: kind}
 	}
-	rangeOnly := TableSpec{Num: 5, Size: 100, SeqLow: 3, SeqHigh: 3, HasRange: true, RangeSm: rk("k01", 3, kindRangeKeySet),
-		RangeLa: rk("k02", seqNumMax, kindRangeKeySet), Lo: 1, Hi: 1}
-	lone := TableSpec{Num: 6, Size: 100, SeqLow: 4, SeqHigh: 4, HasPoint: true, PointSm: rk("k03", 4, kindSet), PointLa: rk("k04", 4, kindSet),
-		Prefix: []byte("k0"), Lo: 3, Hi: 4}
 	depthOnly := TableSpec{Num: 7, Size: 100, CreationTime: 1700000000, SeqLow: 4, SeqHigh: 4, HasPoint: true, PointSm: rk("k03", 4, kindSet),
 		PointLa: rk("k04", 4, kindSet), Depth: 1, Lo: 3, Hi: 4}
 	return []evid.Known[Plan]{
-		{Signature: sigNoTerminator, Plan: Plan{Mode: "seq", Seq: &SeqPlan{Edits: []EditSpec{{Op: "ingest",
-			New: []NewSpec{{Level: 6, T: rangeOnly}}, Marks: []MarkSpec{{Level: 6, Num: 5}}}}}}},
-		{Signature: sigHugeLength, Plan: Plan{Mode: "bytes", Origin: "known", Demo: true,
-			Bytes: []byte{tagComparator, 0xff, 0xff, 0xff, 0xff, 0xff, 0xff, 0xff, 0xff, 0x7f}}},
-		{Signature: sigDroppedFields, Plan: Plan{Mode: "bytes", Origin: "known", Demo: true,
-			Bytes: refEncode(&EditSpec{New: []NewSpec{{Level: 3, T: lone}}}, encOpts{})}},
-		{Signature: sigDroppedFields, Plan: Plan{Mode: "bytes", Origin: "known", Demo: true,
+		{Signature: sigDepthNoRefs, Plan: Plan{Mode: "bytes", Origin: "known", Demo: true,
 			Bytes: refEncode(&EditSpec{New: []NewSpec{{Level: 3, T: depthOnly}}}, encOpts{})}},
 	}
 }
@@ -458,7 +472,7 @@ func TestC23(t *testing.T) {
 		Assumptions: []string{
 			"equality of edits = equality of all persisted fields (own rendering), equal DebugString and equal re-encoding; BackingValueSize of non-virtual tables is not persisted by design (testdata/version_edit_decode) and is ignored",
 			"decoded virtual tables get their TableBacking from the caller (doc of VersionEdit.Decode); when replaying decoded edits one at a time the AddedFileBacking map is carried to the next BulkVersionEdit",
-			"inputs in which a length-prefixed field declares between 64 KiB and 2^56 bytes beyond the input are not executed (Decode would allocate that much)",
+			"a length prefix that exceeds the remaining input (found by an independent walk of the record) must make Decode fail, and for declared lengths > 32 MiB Decode may allocate at most 16 MiB (runtime.MemStats.TotalAlloc delta)",
 			"invariants build tag off (harness builds with -tags verif only)",
 		},
 		Gen: gen, Exec: exec,
